@@ -16,6 +16,7 @@ BUDGET = {
     "quick": {"workers": 16, "cases": 900, "secs": 60, "min_cases": 7200},
     "thorough": {"workers": 16, "rounds": 4, "cases": 2400, "secs": 420, "min_cases": 76800},
 }
+SIBLINGS = True  # consecutive cases with identical structure and different gate types
 ANCHORS = ["tx:supergates"]
 
 
